@@ -323,3 +323,23 @@ Proof.
   destruct (2147483647 <? eps1 * 4 * 8); [reflexivity|].
   destruct g, d1; reflexivity.
 Qed.
+
+Theorem gen_align_eq : forall fuel g,
+  in_range (d_of g) -> (N.to_nat 4294967296 <= fuel)%nat ->
+  jls_core_signal_def_align fuel g = r_align g (sd_align (width g) (d_of g)).
+Proof.
+  intros fuel g HR HF. unfold jls_core_signal_def_align.
+  rewrite gen_defaults_eq.
+  pose proof (defaults_in_range_any (width g) (d_of g) HR) as HR1.
+  unfold sd_align, r_align.
+  set (w := width g) in *. set (d1 := sd_defaults w (d_of g)) in *.
+  assert (Hw : w < 256) by apply sample_size_lt.
+  cbv zeta. rewrite parse_size_eq.
+  change (sample_size (jls_signal_def_s_data_type (put g d1))) with w.
+  change (jls_signal_def_s_sample_decimate_factor (put g d1)) with (sdf d1).
+  change (jls_signal_def_s_samples_per_data (put g d1)) with (spd d1).
+  change (jls_signal_def_s_entries_per_summary (put g d1)) with (eps d1).
+  change (jls_signal_def_s_summary_decimate_factor (put g d1)) with (sumdf d1).
+  rewrite !u32_max_eq.
+  Show.
+Admitted.
